@@ -530,6 +530,71 @@ func runC07(w *World, r *Report) {
 			})
 		}
 		r.Check(okc && !bad, "C07.converter-is-checker", n+" uses a comma-ok assertion", f.Pos(), "mismatch returns an error", "run-time type check panics instead of returning an error")
+		// … and nothing gets past it: every non-error return is on the ok arm of that assertion (no fast path for nil or
+		// anything else — a nil dynamic value is NOT assignable to a non-interface consumer)
+		for _, ff := range withAnons(f) {
+			nok := 0
+			instrs(ff, func(in ssa.Instruction) {
+				ret, ok := in.(*ssa.Return)
+				if !ok || len(ret.Results) < 2 || !isNilConst(returnedValue(ret, len(ret.Results)-1)) {
+					return
+				}
+				nok++
+				guarded := hasGuard(ret.Block(), func(g guard) bool {
+					e, ok := g.cond.(*ssa.Extract)
+					if !ok || e.Index != 1 || !g.pol {
+						return false
+					}
+					_, isTA := e.Tuple.(*ssa.TypeAssert)
+					return isTA
+				})
+				r.Check(guarded, "C07.converter-is-checker", fmt.Sprintf("%s: success return #%d is on the ok arm of the assertion", w.fname(ff), nok), ret.Pos(), "value returned only after v.(T) succeeded",
+					"a value can leave the run-time checker without having been asserted to the consumer's type (e.g. a nil fast path): it reaches a concretely typed node / branch condition and panics there instead of the connection reporting an ordinary 'runtime type check fail' error")
+			})
+		}
+	}
+	// pass-through nodes: a state handler on a node whose own type is only inferred later must be typed `any` exactly
+	// (the handler is never re-checked against the inferred type)
+	{
+		isAnyType := func(v ssa.Value) bool {
+			// reflect.TypeOf((*any)(nil)).Elem()
+			c, ok := v.(*ssa.Call)
+			if !ok || !c.Call.IsInvoke() || c.Call.Method.Name() != "Elem" {
+				return false
+			}
+			tc, ok := c.Call.Value.(*ssa.Call)
+			if !ok || calleeFullName(tc) != "reflect.TypeOf" {
+				return false
+			}
+			mi, ok := tc.Call.Args[0].(*ssa.MakeInterface)
+			if !ok {
+				return false
+			}
+			pt, ok := mi.X.Type().Underlying().(*types.Pointer)
+			if !ok {
+				return false
+			}
+			it, ok := pt.Elem().Underlying().(*types.Interface)
+			return ok && it.Empty()
+		}
+		addNode := w.Fn("compose", "graph.addNode")
+		n := 0
+		instrs(addNode, func(in ssa.Instruction) {
+			iff, ok := in.(*ssa.If)
+			if !ok {
+				return
+			}
+			op, x, y, ok := asCmp(iff.Cond)
+			if !ok || op != token.NEQ || !(isAnyType(x) || isAnyType(y)) {
+				return
+			}
+			// the != any arm is an error return
+			if blockEndsInError(iff.Block().Succs[0]) {
+				n++
+			}
+		})
+		r.Check(n >= 2, "C07.validate-before-commit", "addNode: pass-through state handlers are typed any exactly", addNode.Pos(), fmt.Sprintf("%d identity tests against the empty interface type, each rejecting", n),
+			fmt.Sprintf("only %d of the 2 pass-through handler checks (pre, post) compare the handler type with `any` itself: a handler typed on another interface (fmt.Stringer …) is accepted on a pass-through node, is never re-checked against the type inferred later, and its wrapper panics at run time (unrecovered)", n))
 	}
 
 	// ---- branch handler index
